@@ -159,6 +159,38 @@ def run_case(case, obs):
                     if k in types:
                         obs.check(d["sample-type"] == types[k], "sample-type", f"{k}: stored as {d['sample-type']}, request was {types[k]}")
                     break
+    # throughput counts every sample that was handed to the driver: per emitted value, value x elapsed lies between the operations of
+    # the samples strictly earlier than the emitting one and the operations of everything delivered so far (C06's bound, applied to
+    # the batches the real Driver formed: periodic ticks, step boundaries)
+    delivered, start_time = {}, {}
+    for fed, out in r.tp_calls:
+        this = {}
+        for name, at, ops, period, stype, runner_tp in fed:
+            this.setdefault(name, []).append((at, ops, period, runner_tp))
+        for name, ss in this.items():
+            if name not in start_time:
+                first = min(ss, key=lambda x: x[0])
+                start_time[name] = first[0] - first[2]
+            delivered.setdefault(name, [])
+        for name, values in out.items():
+            ss = this.get(name, [])
+            if any(x[3] for x in ss) or any(x[3] for x in delivered.get(name, [])):
+                continue  # runner-supplied throughput is passed through
+            earlier = delivered.get(name, [])
+            upper = sum(x[1] for x in earlier) + sum(x[1] for x in ss)
+            for at, _rel, _stype, value, _unit in values:
+                seen = earlier + [x for x in ss if x[0] <= at]
+                intervals = {max(x[0] - start_time[name] for x in seen), at - start_time[name]} if seen else {at - start_time[name]}
+                lower = sum(x[1] for x in earlier + ss if x[0] < at)
+                ok = any(lower * (1 - 1e-9) - 1e-6 <= value * iv <= upper * (1 + 1e-9) + 1e-6 for iv in intervals)
+                obs.check(
+                    ok,
+                    "throughput-ignores-samples",
+                    lambda: f"task {name}: throughput {value} at +{at - sim_race.kernel.EPOCH:.3f}s means {[round(value * iv, 3) for iv in intervals]} operations, "
+                    f"but the samples handed to the driver so far carry between {lower} and {upper}",
+                )
+        for name, ss in this.items():
+            delivered[name].extend(ss)
     # throughput is computed from all samples: same records with and without down-sampling
     if case.get("downsample"):
         base = copy.deepcopy(case)
